@@ -67,12 +67,14 @@ impl Gen {
         let mp = match family {
             "lockstep" => 0,
             "death3" => 1 + rng.below(10) as usize,
+            "death" | "disc" if rng.chance(1, 4) => 0,
             _ => *rng.pick(&[0usize, 1, 2, 3, 4, 6, 8, 8, 8, 10, 12]),
         };
         let n_spec = match family {
             "spec" => 1 + rng.below(2) as usize,
             "specack" | "specdeath" => 1,
-            "mix" | "events" | "death" | "delay" => if rng.chance(1, 4) { 1 } else { 0 },
+            "death" | "disc" => if rng.chance(1, 2) { 1 } else { 0 },
+            "mix" | "events" | "delay" => if rng.chance(1, 4) { 1 } else { 0 },
             _ => 0,
         };
         let long = family == "long" || family == "events";
